@@ -13,6 +13,7 @@ import lifecycle
 import lin
 import orca
 import pool
+import wirecheck
 
 CHECKS = {
     "C01": orca.check,
@@ -21,9 +22,11 @@ CHECKS = {
     "C04": chunk.check_c04,
     "C05": chunk.check_c05,
     "C06": pool.check_c06,
+    "C07": wirecheck.check_c07,
     "C08": conn.check,
     "C09": orca.check,
     "C10": fault.check,
+    "C11": wirecheck.check_c11,
     "C12": lin.check_c12,
     "C13": pool.check_c13,
     "C14": multiconn.check,
